@@ -116,7 +116,7 @@ def _sim_open(path, *a, **kw):
         if ft['kind'] == 'EIO_read':
             if log is not None:
                 log.append(['open', base, 'fault-armed:EIO_read'])
-            return _FaultyFile(builtins.open(path, *a, **kw), ft)
+            return _FaultyFile(_REAL_OPEN(path, *a, **kw), ft)
         ft['fired'] = True
         if log is not None:
             log.append(['open', base, 'fault:' + ft['kind']])
@@ -125,13 +125,30 @@ def _sim_open(path, *a, **kw):
         raise OSError(code, os.strerror(code) + ' (injected)', str(path))
     if log is not None:
         log.append(['open', base])
-    return builtins.open(path, *a, **kw)
+    return _REAL_OPEN(path, *a, **kw)
+
+
+_REAL_OPEN = builtins.open
+
+
+def _global_open(path, *a, **kw):
+    # data files only; everything else the process opens is not the
+    # simulated disk's business
+    if isinstance(path, (str, os.PathLike)) and \
+            str(path).endswith(('.yaml', '.yml')):
+        return _sim_open(path, *a, **kw)
+    return _REAL_OPEN(path, *a, **kw)
 
 
 def install_seam():
+    """The module globals `open` of Library and Scheme (what the package
+    uses today) and, for data files, the process-wide open / io.open (what a
+    refactoring might use instead: io.open, pathlib)."""
     from pgradd.GroupAdd import Library, Scheme
     Library.open = _sim_open
     Scheme.open = _sim_open
+    builtins.open = _global_open
+    io.open = _global_open
 
 
 # ------------------------------------------------- reference (fresh) side
